@@ -855,7 +855,20 @@ fn exec_op(ctx: &mut Ctx, op: &Value, ev: &mut Map<String, Value>) {
             let detail = op["detail"].as_str().unwrap_or("full");
             let scratch = ctx.scratch.clone();
             let p = ctx.parsers.entry(i).or_insert_with(Parser::new);
-            let res: Res = if op["thread"].as_bool().unwrap_or(false) {
+            let res: Res = if op["thread"].as_str() == Some("same-object") {
+                // the SAME parser object validated from a fresh thread while this thread waits (no concurrent access;
+                // the wrapper only silences the Send / Sync requirement, which a change to the crate must not be able to
+                // turn into a build failure of the harness)
+                struct Ptr(*const P);
+                unsafe impl Send for Ptr {}
+                let ptr = Ptr(p as *const P);
+                std::thread::spawn(move || {
+                    let ptr = ptr;
+                    unsafe { (*ptr.0).validate() }
+                })
+                .join()
+                .unwrap()
+            } else if op["thread"].as_bool().unwrap_or(false) {
                 // another thread (fresh hash keys): a parser built there from the same (id, content) pairs
                 let texts = ctx.texts.get(&i).cloned().unwrap_or_default();
                 std::thread::spawn(move || {
